@@ -164,7 +164,7 @@ func c20Exec(cs c20Case, c *explore.Chooser) core.Outcome {
 		b, _ := json.Marshal(cs)
 		return core.Outcome{Key: key, Desc: string(b) + " choices=" + fmt.Sprint(c.Choices) + "\n" + fmt.Sprintf(f, a...)}
 	}
-	root, err := os.MkdirTemp("", "c20-")
+	root, err := scratchDir("c20-")
 	if err != nil {
 		panic(err)
 	}
